@@ -493,6 +493,16 @@ def r6(ck, F):
                     problems.append("returns %s: not recognisably the accumulated builder" % txt[:100])
             if not n:
                 continue
+            # the step that names a prefix must add it: ignore_crate(name) puts `name` on the list on every path
+            if m == "ignore_crate":
+                for p in PathEval(b).run():
+                    if p.end != "return":
+                        continue
+                    added = any(c[1].get("method") in ("push", "insert", "extend", "extend_one") and "ignore_crates" in show(c[2][0]) and
+                                any("arg2" in show(a) for a in c[2][1:]) for c in p.calls)
+                    built = p.ret[0] == "agg" and "arg2" in show(p.ret)
+                    if not added and not built:
+                        problems.append("returns without adding the named prefix to ignore_crates: records of that crate are bridged although the caller asked to ignore them")
             if problems:
                 ck.bad("C18.R6", key, where(b.raw["sp"]), "; ".join(sorted(set(problems))[:3]), fn=path)
             else:
